@@ -135,6 +135,18 @@ CLAIMED.update({
         technique="Lean 4 model + canonical-order proofs + differential round-trip correspondence"),
 })
 
+CLAIMED.update({
+    "C11": dict(
+        text=("Model of convolve_with / convolve_pow (repeated squaring with remainder recursion) / isotopic_convolution "
+              "over exact rationals and the specification `arrangements` (every ordered assignment of an isotope to each "
+              "atom); theorems in Props/C11.lean.  Correspondence: the real peak list is compared as a sorted multiset "
+              "with the model at the same threshold and with the exact enumeration (threshold 0: equality; threshold t: "
+              "completeness above t, ratios, floor), on compositions that exercise every branch of the power loop."),
+        design_ref="§7.11",
+        note=NOTE_COMMON + " Partial (floating point): exact-rational theorems; masses compared to 1e-9 Da and intensities to 1e-9 relative. HashMap iteration order of isotopes/entries is unobservable (multiset comparison).",
+        technique="Lean 4 multiset/permutation proofs over Q + differential correspondence against an exact enumeration"),
+})
+
 PENDING_REASON = "check not built yet in this session; no claim is made until its model, theorems and correspondence run exist"
 
 
